@@ -3,9 +3,9 @@ Rung 2, NFA level — theorems about the model of the builder's trie, fail-link 
 (Model/Trie.lean, Model/Nfa.lean) for ALL pattern collections, all three kinds. Together with the
 insertion-phase theorems (Props/C10, C14, C15) they show that the sparse NFA the model builds is
 the textbook Aho-Corasick NFA (standard kind) resp. the leftmost automaton characterised by (F),
-(G1), (G3) (leftmost kinds). What remains unproved for Rung 2 is only the double-array *layout*
-(that the tables mirror this NFA), which is covered per instance by evaluating
-`tableInv`/`leftmostInv` on the real tables and by suite K-build.
+(G1), (G3) (leftmost kinds). The double-array *layout* (that the tables mirror this NFA) is proved
+in Proofs/LayoutB, LayoutC, LayoutSem and assembled in Proofs/Rung2; independently it is covered
+per instance by evaluating `tableInv`/`leftmostInv` on the real tables and by suite K-build.
 These theorems serve C01–C05 (and through them C06, C08, C11, C13).
 -/
 import Daac.Proofs.NfaStd
